@@ -3092,6 +3092,12 @@ class Wallet(object):
                     continue
                 lx = self._balances.index(bl_item[0])
                 self._balances[lx].update(bl)
+            # Reset balance of networks / accounts without unspent outputs
+            for b in self._balances:
+                if (network is None or b['network'] == network) and (account_id is None or b['account_id'] == account_id) \
+                        and not [bl for bl in balance_list if bl['network'] == b['network'] and
+                                                              bl['account_id'] == b['account_id']]:
+                    b['balance'] = 0
 
         self._balance = sum([b['balance'] for b in balance_list if b['network'] == self.network.name])
 
